@@ -1016,3 +1016,15 @@ mod tests {
         }
     }
 }
+
+#[cfg(rs_matter_verif)]
+impl<const N: usize> Events<N> {
+    /// Verification hook: public wrapper of [`Events::load_persist`].
+    pub fn verif_load_persist(
+        &self,
+        kv: &mut dyn KvBlobStore,
+        buf: &mut [u8],
+    ) -> Result<(), Error> {
+        self.load_persist(kv, buf)
+    }
+}
